@@ -16,6 +16,13 @@ pub struct Orderer<T, ID, S> {
     inner: Mutex<CausalOrderer<ID, S>>,
     store: S,
     notify: Notify,
+    /// Item taken out of the ready queue by a `next` call which has not handed it to its caller yet.
+    ///
+    /// The future returned by `next` can be dropped at any await point (the buffered stream layer
+    /// does so whenever new input arrives first). The item is parked here before the transaction
+    /// removing it from the queue is committed, so that the following `next` call returns it instead
+    /// of losing it.
+    in_flight: std::sync::Mutex<Option<T>>,
     _marker: PhantomData<T>,
 }
 
@@ -31,8 +38,25 @@ where
             inner: Mutex::new(inner),
             store,
             notify: Notify::new(),
+            in_flight: std::sync::Mutex::new(None),
             _marker: PhantomData,
         }
+    }
+}
+
+impl<T, ID, S> Orderer<T, ID, S> {
+    fn park_in_flight(&self, operation: T) {
+        *self
+            .in_flight
+            .lock()
+            .expect("in-flight slot lock is never held across a panic") = Some(operation);
+    }
+
+    fn take_in_flight(&self) -> Option<T> {
+        self.in_flight
+            .lock()
+            .expect("in-flight slot lock is never held across a panic")
+            .take()
     }
 }
 
@@ -71,6 +95,11 @@ where
         loop {
             let inner = self.inner.lock().await;
 
+            // Hand out an item first which a previous, cancelled `next` call already took.
+            if let Some(operation) = self.take_in_flight() {
+                return Ok(operation);
+            }
+
             let permit = self
                 .store
                 .begin()
@@ -82,19 +111,29 @@ where
                 .await
                 .map_err(|err| (None, OrdererError::OrdererStore(err)))?
             {
-                self.store
-                    .commit(permit)
-                    .await
-                    .map_err(|err| (None, OrdererError::Transaction(err)))?;
+                // Look the operation up inside of the transaction and park it _before_ committing:
+                // when this future gets dropped during or after the commit the item has left the
+                // queue already and would be lost otherwise.
+                let parked = match self.store.get_operation_tx(&id).await {
+                    Ok(Some(operation)) => {
+                        self.park_in_flight(operation);
+                        Ok(true)
+                    }
+                    Ok(None) => Ok(false),
+                    Err(err) => Err(OrdererError::OperationStore(err)),
+                };
 
-                return match self
-                    .store
-                    .get_operation(&id)
-                    .await
-                    .map_err(OrdererError::OperationStore)
-                {
-                    Ok(Some(operation)) => Ok(operation),
-                    Ok(None) => Err((None, OrdererError::StoreInconsistency(id))),
+                if let Err(err) = self.store.commit(permit).await {
+                    // Nothing was committed, the item is still in the queue.
+                    self.take_in_flight();
+                    return Err((None, OrdererError::Transaction(err)));
+                }
+
+                return match parked {
+                    Ok(true) => self
+                        .take_in_flight()
+                        .ok_or((None, OrdererError::StoreInconsistency(id))),
+                    Ok(false) => Err((None, OrdererError::StoreInconsistency(id))),
                     Err(err) => Err((None, err)),
                 };
             }
